@@ -28,7 +28,7 @@ var layoutAtom = regexp.MustCompile(`(\.RequiresIterator\(\)|\.IsMaterializable\
 func LCSites(rc *RC) (map[string]string, map[string][]ir.Path) {
 	sites := map[string]string{}
 	paths := map[string][]ir.Path{}
-	for _, fi := range rc.P.SortedFuncs() {
+	for _, fi := range rc.P.AnalysisFuncs() {
 		if fi.Pkg != rc.P.Root || fi.Decl.Body == nil || lcGenerated[fi.File] || strings.HasPrefix(fi.File, "sparse") {
 			continue
 		}
@@ -37,7 +37,7 @@ func LCSites(rc *RC) (map[string]string, map[string][]ir.Path) {
 			continue // the primitives themselves
 		}
 		_, tree := sCanon(rc, fi)
-		txt := ir.Render(tree)
+		txt := stripFuncLits(ir.Render(tree))
 		if !lcPrims.MatchString(txt) {
 			continue
 		}
@@ -51,7 +51,7 @@ func LCSites(rc *RC) (map[string]string, map[string][]ir.Path) {
 		walk = func(ns []*ir.Node) {
 			for _, n := range ns {
 				if n.Kind != "if" && n.Kind != "loop" && n.Kind != "range" && n.Kind != "switch" && n.Kind != "case" {
-					for _, m := range lcPrims.FindAllString(n.Head, -1) {
+					for _, m := range lcPrims.FindAllString(stripFuncLits(n.Head), -1) {
 						name := strings.TrimSuffix(strings.TrimPrefix(strings.TrimSuffix(m, "("), "."), "(")
 						if i := strings.Index(name, "("); i >= 0 {
 							name = name[:i]
@@ -139,4 +139,61 @@ func LC(rc *RC, floor int) {
 		}
 	}
 	// census entries that vanished are fine (code removed); nothing to report
+}
+
+// stripFuncLits blanks the bodies of function literals rendered inline in a statement head:
+// literals are analysed as units of their own (Program.AnalysisFuncs), so their contents must
+// not be attributed to the enclosing statement a second time.
+func stripFuncLits(s string) string {
+	for {
+		i := strings.Index(s, "func(")
+		if i < 0 {
+			return s
+		}
+		// find the body's opening brace: first '{' at parenthesis depth 0 after the signature
+		d := 0
+		j := i + len("func")
+		open := -1
+		for ; j < len(s); j++ {
+			switch s[j] {
+			case '(':
+				d++
+			case ')':
+				d--
+			case '{':
+				if d == 0 {
+					open = j
+				}
+			}
+			if open >= 0 {
+				break
+			}
+			if d == 0 && j > i+len("func") && s[j] != ')' && s[j] != '(' && s[j] != ' ' && !isIdentByte(s[j]) && s[j] != '.' && s[j] != '*' && s[j] != '[' && s[j] != ']' && s[j] != ',' {
+				break // a function *type*, not a literal
+			}
+		}
+		if open < 0 {
+			return s[:i] + "fn(" + stripFuncLits(s[i+len("func("):])
+		}
+		d = 0
+		k := open
+		for ; k < len(s); k++ {
+			if s[k] == '{' {
+				d++
+			} else if s[k] == '}' {
+				d--
+				if d == 0 {
+					break
+				}
+			}
+		}
+		if k >= len(s) {
+			return s[:i] + "fn{…}"
+		}
+		s = s[:i] + "fn{…}" + s[k+1:]
+	}
+}
+
+func isIdentByte(c byte) bool {
+	return c == '_' || c >= '0' && c <= '9' || c >= 'a' && c <= 'z' || c >= 'A' && c <= 'Z' || c >= 0x80
 }
